@@ -23,6 +23,7 @@ RULE_ADDED = {
     "C10e": "C10-R8 (= C03-R3 a/a2)", "C11e": "C11-R8 (signed fields bound)", "C12e": "C12-R6 (dispatcher writes nothing)", "C15e": "C15-R7 (= C03-R1 aliasing)",
     "C18e": "C18-R2 (import-time deployment refusals)", "C19e": "C19-R6 (typed data unnarrowed)", "C20e": "C20-R10 (BOUNDS)",
     "C19f": "C19-R7 (HD path constructor slots)", "C20f": "C20-R2 (provenance through append/copy)",
+    "C03g": "C03-R1 (restore unconditional)", "C05g": "C13-R3 / C05-R7 (gas slot before the receipt is built)", "C17g": "C17-R8 (deploy forces newDeployment=true)",
 }
 
 
